@@ -211,8 +211,7 @@ def sampled_cases(r, n):
         cases.append({"fn": "rev_longs", "a": {"b": b}})
         if ln >= 1:
             cases.append({"fn": "change_endianness", "a": {"b": b}})
-        if ln % 2 == 0:
-            cases.append({"fn": "swap_bytes", "a": {"b": b}})
+        cases.append({"fn": "swap_bytes", "a": {"b": b}})          # odd lengths too: refused, or the trailing byte stays (NumHelpers "noalt")
         k = r.choice([1, 8, 16, 31, 32, 33, 64])
         cases.append({"fn": "reverse_bits", "a": {"bits": [r.randrange(2) for _ in range(k)]}})
         cases.append({"fn": "swap16", "a": {"b": big(r.choice([r.getrandbits(16), r.getrandbits(17) | 0x10000]))}})
